@@ -460,6 +460,11 @@ class Prop:
 
 def run_check(prop, tier, seed):
     setup_env()
+    try:  # the library draws PlaneClamp's auxiliary direction from numpy's global generator: make runs repeatable
+        import numpy
+        numpy.random.seed(seed)
+    except Exception:  # noqa: BLE001
+        pass
     ctx = Ctx(prop.pid, tier, seed)
     ctx.prebuilt = list(prop.prebuilt)
     findings = [f for f in load_findings() if f["property"] == prop.pid]
